@@ -8,6 +8,16 @@ Check (C02_jit_unchecked_site_loses_error : exists p st, Forall fallible_sound p
 Check (C02_jit_discipline_nonvacuous :
   discipline [("CAR"%string, "car-reg"%string, true, true); ("CONS"%string, "cons-handler-value"%string, false, false)] = true /\
   discipline [("CAR"%string, "car-reg"%string, true, false)] = false).
+Check (C02_jit_helpers_clear_flag : helper_discipline Gen_C02jit.error_stores = true).
+Check (C02_jit_flag_contract : forall p, Forall (fun c => fallible_sound (base c)) p ->
+  forallb (fun c => call_ok (base c) && implb (cfallible (base c)) (clears c)) p = true ->
+  forall st, native_flag p st = interp (map base p) st).
+Check (C02_jit_helper_not_clearing_flag_loses_error : exists p st,
+  Forall (fun c => fallible_sound (base c)) p /\ forallb (fun c => call_ok (base c)) p = true /\
+  native_flag p st <> interp (map base p) st).
+Print Assumptions C02_jit_helpers_clear_flag.
+Print Assumptions C02_jit_flag_contract.
+Print Assumptions C02_jit_helper_not_clearing_flag_loses_error.
 Print Assumptions C02_jit_sites_checked.
 Print Assumptions C02_jit_checked_native_agrees.
 Print Assumptions C02_jit_unchecked_site_loses_error.
